@@ -65,6 +65,21 @@ pub trait AuthorizationHandler {
 //@|    ensures self.may_answer(crate::server::task::AuthCall::WriteMultipleRegisters(_unit_id, _range), _role@, r),
 }
 
+// [C08] default-deny: an authorization handler that overrides nothing denies everything.  The default bodies of the trait are
+// verified as the methods of a marker type that overrides none of them (same text, R5)
+pub struct NoOverride__;
+impl AuthorizationHandler for NoOverride__ {
+    open spec fn may_answer(&self, call: crate::server::task::AuthCall, role: Seq<char>, d: Authorization) -> bool { d == Authorization::Deny }
+//@fn rodbus/src/server/handler.rs | trait AuthorizationHandler::read_coils | tags=C08 | keepvis
+//@fn rodbus/src/server/handler.rs | trait AuthorizationHandler::read_discrete_inputs | tags=C08 | keepvis
+//@fn rodbus/src/server/handler.rs | trait AuthorizationHandler::read_holding_registers | tags=C08 | keepvis
+//@fn rodbus/src/server/handler.rs | trait AuthorizationHandler::read_input_registers | tags=C08 | keepvis
+//@fn rodbus/src/server/handler.rs | trait AuthorizationHandler::write_single_coil | tags=C08 | keepvis
+//@fn rodbus/src/server/handler.rs | trait AuthorizationHandler::write_single_register | tags=C08 | keepvis
+//@fn rodbus/src/server/handler.rs | trait AuthorizationHandler::write_multiple_coils | tags=C08 | keepvis
+//@fn rodbus/src/server/handler.rs | trait AuthorizationHandler::write_multiple_registers | tags=C08 | keepvis
+}
+
 // [C08] the built-in read-only policy allows every read and denies every write, whatever the unit, range or role
 //@item rodbus/src/server/handler.rs | ReadOnlyAuthorizationHandler | derive=Clone,Copy
 pub open spec fn read_only_answer(call: crate::server::task::AuthCall) -> Authorization {
